@@ -179,6 +179,31 @@ theorem stream_unsupported (v : TVal) (hs : streamOk v = false) (out : List (TVa
   | dict kvs => simpa [dump] using feed_frame_bad (dumpDict kvs) 125 (Or.inr (by simp [convert])) out s
   | int _ | bytes _ | text _ | null => simp [streamOk] at hs
 
+/-- **Agreement with `parse` on every input, not only on `dump` output.**  `scan1 s data` is the
+machine's run from a message boundary up to its first message (`scan1_feed` below is that fact).
+Whenever the machine delivers a first message `(v, m)` from `data`, `parse data` returns the same
+value `v` and the same remaining input, and `m - s` is exactly the number of bytes `parse` consumed;
+when it delivers none (input incomplete, or a failure), nothing is added to the delivered list.
+(The converse fails by design: `parse` also accepts what Python's `int()` accepts as a length --
+sign, spaces, underscores -- and the types `! ^ ] }`, see the examples.) -/
+theorem stream_first_message_is_parse (data : Bytes) (out : List (TVal × Nat)) (s : Nat) :
+    match scan1 s data with
+    | some (v, m, rest) =>
+        feed ⟨.start, out, s⟩ data = feed ⟨.start, out ++ [(v, m)], m⟩ rest
+        ∧ parse data = some (v, rest) ∧ m + rest.length = s + data.length
+    | none => (feed ⟨.start, out, s⟩ data).out = out := by
+  have h1 := scan1_feed data s out
+  cases h : scan1 s data with
+  | none => simpa [h] using h1
+  | some r =>
+    obtain ⟨v, m, rest⟩ := r
+    simp only [h] at h1
+    exact ⟨h1, scan1_parse data s v m rest h⟩
+
+example : scan1 0 [48, 51, 58, 97, 98, 99, 44, 57] = some (.bytes [97, 98, 99], 7, [57]) := by
+  decide +kernel                                                                -- b'03:abc,9'
+example : scan1 0 [51, 58, 97, 98] = none := by decide +kernel                   -- incomplete
+
 /-! ## Non-vacuity and witnesses (`decide` on samples: tests of the definitions, not theorems) -/
 
 /-- a nested value: `{"a:1": [-5, "é€😀", b"3:x,", 1.5e-07, True, None], "": {}}` -/
